@@ -225,3 +225,11 @@ impl Rd6 {
     pub fn syn6_bad(txt: &[char], i: usize) -> bool { i > 0 && txt[i - 1] == ':' }
     pub fn syn6_good(txt: &[char], i: usize) -> bool { txt[i] == ':' || txt.get(i + 1) == Some(&':') }
 }
+
+
+// ---- SUP-10 controls: a tone modifier read by defaulting it (bad) / by `if let Some` (good)
+pub struct Tn10;
+impl Tn10 {
+    pub fn sup10_bad(tone: &Option<u16>, syll_tone: u16) -> bool { let t = tone.unwrap_or_default(); t == 0 || t == syll_tone }
+    pub fn sup10_good(tone: &Option<u16>, syll_tone: u16) -> bool { if let Some(t) = tone.as_ref() { *t == syll_tone } else { true } }
+}
